@@ -93,21 +93,21 @@ const char cif_errlist[][80] = {
     /* CIF_OK                  0 */ "no error",
     /* CIF_FINISHED            1 */ "iteration finished",
     /* CIF_ERROR               2 */ "unspecified error",
-    /* CIF_INVALID_HANDLE      3 */ "invalid object handle provided",
-    /* CIF_INTERNAL_ERROR      4 */ "CIF API internal error",
-    /* CIF_ARGUMENT_ERROR      5 */ "invalid function argument",
-    /* CIF_MISUSE              6 */ "improper CIF API use",
-    /* CIF_NOT_SUPPORTED       7 */ "feature not supported",
-    /* CIF_ENVIRONMENT_ERROR   8 */ "wrong or inadequate operating environment",
-    /* CIF_CLIENT_ERROR        9 */ "application-directed error",
-    "",
+    /* CIF_MEMORY_ERROR        3 */ "memory allocation failure",
+    /* CIF_INVALID_HANDLE      4 */ "invalid object handle provided",
+    /* CIF_INTERNAL_ERROR      5 */ "CIF API internal error",
+    /* CIF_ARGUMENT_ERROR      6 */ "invalid function argument",
+    /* CIF_MISUSE              7 */ "improper CIF API use",
+    /* CIF_NOT_SUPPORTED       8 */ "feature not supported",
+    /* CIF_ENVIRONMENT_ERROR   9 */ "wrong or inadequate operating environment",
+    /* CIF_CLIENT_ERROR       10 */ "application-directed error",
     /* CIF_DUP_BLOCKCODE      11 */ "duplicate data block code",
     /* CIF_INVALID_BLOCKCODE  12 */ "invalid data block code",
     /* CIF_NOSUCH_BLOCK       13 */ "no data block exists for the specified code",
     "", "", "", "", "", "", "",
-    /* CIF_DUP_BLOCKCODE      21 */ "duplicate save frame code",
-    /* CIF_INVALID_BLOCKCODE  22 */ "invalid save frame code",
-    /* CIF_NOSUCH_BLOCK       23 */ "no save frame exists for the specified code and data block",
+    /* CIF_DUP_FRAMECODE      21 */ "duplicate save frame code",
+    /* CIF_INVALID_FRAMECODE  22 */ "invalid save frame code",
+    /* CIF_NOSUCH_FRAME       23 */ "no save frame exists for the specified code and data block",
     "", "", "", "", "", "", "",
     /* CIF_CAT_NOT_UNIQUE     31 */ "the specified category does not uniquely identify a loop",
     /* CIF_INVALID_CATEGORY   32 */ "the specified category identifier is invalid",
@@ -165,7 +165,7 @@ const char cif_errlist[][80] = {
     /* CIF_UNQUOTED_KEY      138 */ "an unquoted table key was encountered",
     /* CIF_MISQUOTED_KEY     139 */ "encountered a text block used as a table key",
     /* CIF_NULL_KEY          140 */ "a null table key was encountered",
-    /* CIF_MISSING_PREFIX    141 */ /* "a line of a prefixed text field body omitted the prefix" */
+    /* CIF_MISSING_PREFIX    141 */ "a line of a prefixed text field body omitted the prefix"
 };
 
 const int cif_nerr = (sizeof(cif_errlist) / sizeof(cif_errlist[0]));
